@@ -125,6 +125,7 @@ void TasmanianDREAM_getIJKdelta(const TasmanianDREAM *self, size_t i, size_t j, 
   for (size_t d = 0; d < TSG_NDIM; d++) if (d < x_size) x[d] = nondet_double();
 }
 #endif
+#ifndef DREAM_MEMBERS_BODY
 void TasmanianDREAM_setState_vec(TasmanianDREAM *s, const double *v, size_t n){
   size_t nd = s->num_dimensions, r = 0, l = 0;
   __CPROVER_assert(n == s->num_chains * nd, "F14 setState receives num_chains x num_dimensions values");
@@ -171,6 +172,7 @@ void TasmanianDREAM_saveStateHistory(TasmanianDREAM *s, size_t num_accepted){
   s->accepted += num_accepted;
   g_saves++;
 }
+#endif
 
 //@ harness h_SampleDREAM
 void h_SampleDREAM(void){
@@ -246,5 +248,48 @@ void h_F13_block(void){
   double unitlength = (double) num_chains;
   F13_BLOCK
   __CPROVER_assert(g13_called, "F13 the block reaches the call");
+  __CPROVER_assert(0, "VACUITY-CANARY");
+}
+
+//@ text2
+/* the small state members, extracted and enforced against their own contracts (job dream.state_members) */
+double g_hist_last[TSG_NCH * TSG_NDIM], g_pdf_hist_last[TSG_NCH];
+void hist_append(TasmanianDREAM *s, const double *v, size_t n){ for (size_t k = 0; k < TSG_NCH * TSG_NDIM; k++) if (k < n) g_hist_last[k] = v[k]; s->history_size += n; }
+void pdf_hist_append(TasmanianDREAM *s, const double *v, size_t n){ for (size_t k = 0; k < TSG_NCH; k++) if (k < n) g_pdf_hist_last[k] = v[k]; s->pdf_history_size += n; }
+//@ harness h_state_members
+void h_state_members(void){
+  TasmanianDREAM st, old;
+  st.num_chains = nondet_size_t(); st.num_dimensions = nondet_size_t();
+  __CPROVER_assume(st.num_chains >= 1 && st.num_chains <= TSG_NCH && st.num_dimensions >= 1 && st.num_dimensions <= TSG_NDIM);
+  st.init_state = nondet_bool(); st.init_values = nondet_bool(); st.accepted = nondet_size_t(); st.history_size = nondet_size_t(); st.pdf_history_size = nondet_size_t();
+  __CPROVER_assume(st.accepted < 1000000 && st.history_size < 1000000 && st.pdf_history_size < 1000000);
+  for (size_t k = 0; k < TSG_NCH * TSG_NDIM; k++) st.state[k] = nondet_double();
+  for (size_t k = 0; k < TSG_NCH; k++) st.pdf_values[k] = nondet_double();
+  old = st;
+  double arg[TSG_NCH * TSG_NDIM]; size_t a_n = nondet_size_t(), a_acc = nondet_size_t(); int a_which = nondet_int();
+  __CPROVER_assume(a_n <= TSG_NCH * TSG_NDIM && a_acc <= TSG_NCH && a_which >= 0 && a_which <= 2);
+  for (size_t k = 0; k < TSG_NCH * TSG_NDIM; k++) arg[k] = nondet_double();
+  tsg_exc = 0;
+  size_t nd = st.num_chains * st.num_dimensions;
+  if (a_which == 0) {
+    TasmanianDREAM_setState_vec(&st, arg, a_n);
+    if (a_n != nd) __CPROVER_assert(tsg_exc == TSG_RUNTIME_ERROR && st.init_state == old.init_state && st.init_values == old.init_values, "F15 setState rejects a vector of the wrong size and changes nothing");
+    else {
+      __CPROVER_assert(tsg_exc == 0 && st.init_state && !st.init_values, "F15 a new state is marked ready and invalidates the cached probability values");
+      for (size_t k = 0; k < TSG_NCH * TSG_NDIM; k++) if (k < nd) __CPROVER_assert(TSG_SAME(st.state[k], arg[k]), "F15 setState stores the given chain states");
+    }
+  } else if (a_which == 1) {
+    TasmanianDREAM_setPDFvalues_vec(&st, arg, a_n);
+    if (a_n != st.num_chains) __CPROVER_assert(tsg_exc == TSG_RUNTIME_ERROR && st.init_values == old.init_values, "F15 setPDFvalues rejects a vector of the wrong size");
+    else {
+      __CPROVER_assert(tsg_exc == 0 && st.init_values && st.init_state == old.init_state, "F15 setPDFvalues marks the probability values ready");
+      for (size_t k = 0; k < TSG_NCH; k++) if (k < st.num_chains) __CPROVER_assert(TSG_SAME(st.pdf_values[k], arg[k]), "F15 setPDFvalues stores the given values");
+    }
+  } else {
+    TasmanianDREAM_saveStateHistory(&st, a_acc);
+    __CPROVER_assert(st.history_size == old.history_size + nd && st.pdf_history_size == old.pdf_history_size + st.num_chains && st.accepted == old.accepted + a_acc, "F15 a snapshot appends chains x dimensions states, chains probability values and the acceptance count");
+    for (size_t k = 0; k < TSG_NCH * TSG_NDIM; k++) if (k < nd) __CPROVER_assert(TSG_SAME(g_hist_last[k], old.state[k]), "F15 the recorded samples are the current chain states");
+    for (size_t k = 0; k < TSG_NCH; k++) if (k < st.num_chains) __CPROVER_assert(TSG_SAME(g_pdf_hist_last[k], old.pdf_values[k]), "F15 the recorded probability values are the current ones");
+  }
   __CPROVER_assert(0, "VACUITY-CANARY");
 }
